@@ -137,7 +137,7 @@ CoarseProblems(ev) ==
    \cup (IF CAbs(CLhs(ev, ev.obj) + ev.off * CS - ev.sol.value.c * ev.den) > CSlack(ev, ev.obj)
          THEN {"reported value is not the objective at the point (coarse)"} ELSE {})
 Usable(ev) == ev.sol.value.ok /\ \A j \in 1..Len(ev.sol.point) : ev.sol.point[j].v.ok
-SimplexBasedEntry(ev) == ev.entry # "clarabel"
+SimplexBasedEntry(ev) == ev.entry \notin {"clarabel", "text_clarabel"}
 PointProblems(ev) ==
    IF ~Complete(ev) THEN {"not exactly one value per variable"}
    ELSE IF ~Usable(ev) THEN {"non-finite or huge value returned"}
@@ -153,8 +153,8 @@ Accepts(ev) == \* does this entry point accept the model at all?
    CASE ev.entry \in {"milp", "auto"} -> TRUE
      [] ev.entry = "real_microlp" -> ev.sense # "sat" /\ \A i \in 1..NV(ev) : ev.vars[i].kind \in {"real", "nnreal"}
      [] ev.entry = "simplex" -> ev.sense # "sat" /\ \A i \in 1..NV(ev) : ev.vars[i].kind \in {"real", "nnreal"}
-     [] ev.entry = "clarabel" -> \A i \in 1..NV(ev) : ev.vars[i].kind \in {"real", "nnreal"}
-SimplexBased(ev) == ev.entry # "clarabel"
+     [] ev.entry \in {"clarabel", "text_clarabel"} -> \A i \in 1..NV(ev) : ev.vars[i].kind \in {"real", "nnreal"}
+SimplexBased(ev) == ev.entry \notin {"clarabel", "text_clarabel"}
 \* for a satisfy model only feasibility is judged
 ValueOk(ev, v) ==
    IF ev.sense = "sat" THEN TRUE
@@ -256,6 +256,28 @@ LimitsProblems(ev) ==
            ELSE IF ev.err.kind = "Unbounded" /\ vd.st = "unb" THEN {}
            ELSE {"error " \o ev.err.kind \o " without a limit on a model with verdict " \o vd.st}
 
+\* The text door (entry text_clarabel): the solver sees the COMPILED model, whose variable ranges the
+\* compiler may have tightened by bound inference (field cvars).  An inferred bound is implied by the
+\* rows, so the compiled model can be degenerate where the user's model is not, and the solver then
+\* gives (part of) a row's price to the bound.  Such an answer is the right one for the compiled
+\* model and the wrong one for the user's: it is reported under its own class.
+Compiled(ev) ==
+   [ev EXCEPT !.vars = [i \in 1..Len(ev.vars) |->
+        LET S == {j \in 1..Len(ev.cvars) : ev.cvars[j].name = ev.vars[i].name}
+        IN  IF S = {} THEN ev.vars[i]
+            ELSE LET c == ev.cvars[CHOOSE j \in S : TRUE] IN [ev.vars[i] EXCEPT !.lo = c.lo, !.hi = c.hi]]]
+CompiledKnown(ev) == "cvars" \in DOMAIN ev /\ \A j \in 1..Len(ev.cvars) : (ev.cvars[j].lo.inf # 0 \/ ev.cvars[j].lo.d # 0) /\ (ev.cvars[j].hi.inf # 0 \/ ev.cvars[j].hi.d # 0)
+ZeroRow(r) == \A i \in 1..Len(r.a) : r.a[i] = 0
+DualClass(ev) ==
+   LET pb == DualProblems(ev) IN
+   IF pb = {} \/ ev.entry # "text_clarabel" THEN pb
+   ELSE IF pb = {"named row without exactly one dual"} /\
+           \A k \in 1..Len(ev.rows) : (FirstNamed(ev, k) /\ Cardinality(DualOf(ev, ev.rows[k].name)) # 1) => ZeroRow(ev.rows[k])
+        THEN {"KNOWN-VACUOUS-ROW a named row without variables is dropped by the compiler and reports no shadow price"}
+   ELSE IF CompiledKnown(ev) /\ (\E i \in 1..Len(ev.vars) : Compiled(ev).vars[i] # ev.vars[i])
+           /\ DualProblems(Compiled(ev)) \subseteq {"named row without exactly one dual"}
+        THEN {"KNOWN-INFERRED-BOUND the shadow prices are those of the compiled model, whose variable ranges were tightened by bound inference; for the user's model they differ from the sensitivity"}
+   ELSE pb
 Emit(p, ev, bad) == IF bad = {} THEN TRUE
                     ELSE PrintT(<<"REJECT", p, ev.id, CHOOSE b \in bad : TRUE, ToJson(bad)>>)
 Check(ev) ==
@@ -270,7 +292,7 @@ Check(ev) ==
          ELSE PrintT(<<"STAT", ev.id, "notaccepted", "">>))
    ELSE /\ (Has("C04") /\ ev.out = "solution" => Emit("C04", ev, PointProblems(ev)))
         /\ (Has("C05") => Emit("C05", ev, VerdictProblems(ev)))
-        /\ (Has("C20") /\ ev.out = "solution" => Emit("C20", ev, DualProblems(ev)) /\ DualStat(ev))
+        /\ (Has("C20") /\ ev.out = "solution" => Emit("C20", ev, DualClass(ev)) /\ DualStat(ev))
         /\ PrintT(<<"STAT", ev.id, ev.out, IF Has("C05") \/ Has("C20") THEN Verdict(ev).st ELSE "">>)
 
 Init == l = Start
